@@ -11,7 +11,9 @@ META = dict(
          '(is_abs), TaskPool.spawn_on_output (abs_outputs_done, id_match of '
          'all pooled instances), TaskPool.spawn_task (satisfaction from '
          'abs_outputs_done) and load_abs_outputs_for_restart - on a real pool '
-         'of fixture "abs" (start[^] => w, start[^]:x & w[-P2] => v on P2): '
+         'of fixtures "abs" (start[^] => w, start[^]:x & w[-P2] => v on P2) '
+         'and "abs2" (start[2] => w, start[^+P1]:x & w[-P2] => v on P2 from '
+         'point 1, so the parent is not at the head of the recurrence): '
          'which dependent instances exist before the absolute output '
          'completes, which are spawned afterwards, which outputs the absolute '
          'parent completes, and whether a restart (fresh pool loading the '
@@ -38,8 +40,13 @@ META = dict(
     outside=['SQL select of abs_outputs at restart', 'datetime cycling'],
 )
 
-CFG = fx.cfg('abs')
-WPTS = [2, 4, 6, 8]
+CFGS = [fx.cfg('abs'), fx.cfg('abs2')]
+# abs:  initial 2; start[^] => w on P2 (w at 2, 4, 6, 8; v from 4)
+# abs2: initial 1; start[2] => w, start[^+P1]:x? & w[-P2] => v on P2 (w at 1,
+#       3, 5, 7): the absolute parent's point is NOT the first point of the
+#       dependants' recurrence
+WPTSS = [[2, 4, 6, 8], [1, 3, 5, 7]]
+VPTSS = [(4, 6), (3, 5)]
 
 
 def _atom(task, name, output):
@@ -50,7 +57,8 @@ def _atom(task, name, output):
     return None, None
 
 
-def _run(before, suc, xout, restart, v_before):
+def _run(before, suc, xout, restart, v_before, fi=0):
+    CFG, WPTS, (V1, V2) = CFGS[fi], WPTSS[fi], VPTSS[fi]
     pool = fx.pool(CFG)
     db = pool.workflow_db_mgr
     start = fx.itask(CFG, 'start', 2)
@@ -63,7 +71,7 @@ def _run(before, suc, xout, restart, v_before):
             pool.add_to_pool(ws[p])
     v4 = None
     if v_before:
-        v4 = fx.itask(CFG, 'v', 4)
+        v4 = fx.itask(CFG, 'v', V1)
         pool.add_to_pool(v4)
     outs = []
     start.state.status = 'succeeded' if suc else 'failed'
@@ -100,12 +108,12 @@ def _run(before, suc, xout, restart, v_before):
             if t is None:
                 return False
             pool.add_to_pool(t)
-    if pool._get_task_by_id('4/v') is None:
-        t = pool.spawn_task('v', IntegerPoint('4'), {1})
+    if pool._get_task_by_id(f'{V1}/v') is None:
+        t = pool.spawn_task('v', IntegerPoint(str(V1)), {1})
         if t is None:
             return False
         pool.add_to_pool(t)
-    t6 = pool.spawn_task('v', IntegerPoint('6'), {1})
+    t6 = pool.spawn_task('v', IntegerPoint(str(V2)), {1})
     if t6 is None:
         return False
     pool.add_to_pool(t6)
@@ -118,7 +126,7 @@ def _run(before, suc, xout, restart, v_before):
             return False
         if w.state.prerequisites_all_satisfied() != suc:
             return False
-    for p in (4, 6):
+    for p in (V1, V2):
         vv = pool._get_task_by_id(f'{p}/v')
         k, v = _atom(vv, 'start', 'xx')
         if k is None or k.point != '2' or bool(v) != xout:
@@ -130,20 +138,24 @@ def _run(before, suc, xout, restart, v_before):
 
 
 def abs_trigger(b2: bool, b4: bool, b6: bool, b8: bool, suc: bool, xout: bool,
-                restart: bool, v_before: bool) -> bool:
+                restart: bool, v_before: bool, fi: int) -> bool:
     """
+    pre: sl(fi=fi)
+    pre: 0 <= fi <= 1
     post: _
     """
     bits = [fork_bool(b) for b in (b2, b4, b6, b8, suc, xout, restart,
                                    v_before)]
+    fi = fork_int(fi, 0, 1)
     with concrete():
-        return _run(bits[:4], bits[4], bits[5], bits[6], bits[7])
+        return _run(bits[:4], bits[4], bits[5], bits[6], bits[7], fi)
 
 
 def OBLIGATIONS(tier):
     big = tier == 'thorough'
     t = 1200 if big else 160
-    return [Ob('abs_trigger', 'abs_trigger', timeout=t)]
+    return [Ob(f'abs_trigger[{n}]', 'abs_trigger', timeout=t,
+               slice={'fi': i}) for i, n in enumerate(('abs', 'abs2'))]
 
 
 def VALIDATE():
@@ -151,4 +163,5 @@ def VALIDATE():
     assert _run([True, False, True, False], True, False, False, False)
     assert _run([False, False, False, False], True, True, True, True)
     assert _run([True, True, True, True], False, False, False, False)
-    return n + 3
+    assert _run([True, False, False, True], True, True, True, False, 1)
+    return n + 4
